@@ -43,9 +43,10 @@ const N_BASE: usize = 4;
 const B_ALPHA: [&str; 5] = ["a", " ", "\t", "ä", "\u{a0}"];
 /// second families: characters next to the boundary of the White_Space class -- ASCII controls below
 /// U+0020 that are not White_Space (U+0001, U+001F), ZERO WIDTH SPACE (not White_Space, next to
-/// U+200A which is) -- and for part (b) also NEL (U+0085, White_Space, next to the C1 controls) and CR LF (an all-whitespace,
+/// U+200A which is), letters whose UTF-8 encoding ends in the byte 0xA0 / 0x85 (à, Å: read as Latin-1 those
+/// bytes are NBSP and NEL) -- and for part (b) also NEL (U+0085, White_Space, next to the C1 controls) and CR LF (an all-whitespace,
 /// all-ASCII cluster of two code points)
-const EDGE_SYMBOLS: [&str; 4] = ["a", "\u{1}", "\u{1f}", "\u{200b}"];
+const EDGE_SYMBOLS: [&str; 6] = ["a", "\u{1}", "\u{1f}", "\u{200b}", "\u{e0}", "\u{c5}"];
 const EDGE_B_ALPHA: [&str; 6] = ["\u{1}", " ", "\u{200b}", "\u{85}", "\u{1f}", "\r\n"];
 const D9: &str = "D9-cluster-sequence-differs";
 
